@@ -203,8 +203,11 @@ fn part_b(rep: &Report, tier: Tier) {
         Plain(Lbl),
         Substituted(Lbl),
         ExplicitReuseAfter(Lbl),
+        /// a limit of 3 consecutive re-use labels, ANOTHER label sent twice (in full, then as re-use: the counter is
+        /// running), then this label, written in full
+        PlainAfterCountedReuse(Lbl),
     }
-    let lks = [Lk::Plain(L6A), Lk::Plain(L3A), Lk::Plain(Lbl::Bcast), Lk::Substituted(L6A), Lk::Substituted(L3A), Lk::ExplicitReuseAfter(L6B)];
+    let lks = [Lk::Plain(L6A), Lk::Plain(L3A), Lk::Plain(Lbl::Bcast), Lk::Substituted(L6A), Lk::Substituted(L3A), Lk::ExplicitReuseAfter(L6B), Lk::PlainAfterCountedReuse(L6B), Lk::PlainAfterCountedReuse(L3B)];
     let cells: Vec<(usize, usize)> = (0..=maxp).flat_map(|p| (0..lks.len()).map(move |k| (p, k))).collect();
     cells.par_iter().for_each(|&(p, k)| {
         let mut acc = Acc::default();
@@ -225,6 +228,16 @@ fn part_b(rep: &Report, tier: Tier) {
                 let mut scratch = [0u8; 32];
                 let (pass, intended, wire_label): (Lbl, Lbl, Vec<u8>) = match lk {
                     Lk::Plain(l) => (l, l, l.bytes()),
+                    Lk::PlainAfterCountedReuse(l) => {
+                        enc.enable_re_use_label_with_max_consecutive(3);
+                        for k in 0..2u8 {
+                            let o = do_encap(&mut enc, &[1 + k], 0, 0x0800, L3A, &mut scratch);
+                            if let DecapOut::Completed { buf, .. } = do_decap(&mut rx, &scratch[..o.len().unwrap_or(0).min(32)]) {
+                                let _ = rx.provision_storage(buf.into_boxed_slice());
+                            }
+                        }
+                        (l, l, l.bytes())
+                    }
                     Lk::Substituted(l) | Lk::ExplicitReuseAfter(l) => {
                         let o = do_encap(&mut enc, &[1], 0, 0x0800, l, &mut scratch);
                         if let DecapOut::Completed { buf, .. } = do_decap(&mut rx, &scratch[..o.len().unwrap_or(0)]) {
@@ -259,7 +272,7 @@ fn part_b(rep: &Report, tier: Tier) {
                     None => rep.violation("C12|wiring|context-crc", rank, || (format!("the context CRC {:#010x} is not the value returned by any call of the CRC calculator ({} calls)", ctx.crc, calls.len()), wit())),
                     Some(c) => {
                         if c.pdu != pd || c.pt != pt || c.total != want_total || c.label != on_wire {
-                            rep.violation(&format!("C12|wiring|sender-args|{}|{}", if matches!(lk, Lk::Plain(_)) { "plain" } else { "reuse" }, if via_ext { "encap_ext" } else { "encap" }), rank, || (format!("encap passed (pdu {} bytes, pt {:#06x}, total_len {}, label {}) to the CRC calculator; expected (whole PDU {} bytes, pt {:#06x}, total_len {} = 2 + label as written + PDU, label as written {})", c.pdu.len(), c.pt, c.total, hex(&c.label), p, pt, want_total, hex(&on_wire)), wit()));
+                            rep.violation(&format!("C12|wiring|sender-args|{}|{}", if matches!(lk, Lk::Plain(_) | Lk::PlainAfterCountedReuse(_)) { "plain" } else { "reuse" }, if via_ext { "encap_ext" } else { "encap" }), rank, || (format!("encap passed (pdu {} bytes, pt {:#06x}, total_len {}, label {}) to the CRC calculator; expected (whole PDU {} bytes, pt {:#06x}, total_len {} = 2 + label as written + PDU, label as written {})", c.pdu.len(), c.pt, c.total, hex(&c.label), p, pt, want_total, hex(&on_wire)), wit()));
                         }
                     }
                 }
@@ -297,14 +310,14 @@ fn part_b(rep: &Report, tier: Tier) {
                     acc.compared += 1;
                     let tr = &last_pkt[last_pkt.len() - 4..];
                     if tr != want_crc.to_be_bytes() {
-                        rep.violation(&format!("C12|wiring|trailer|{}|{}", if matches!(lk, Lk::Plain(_)) { "plain" } else { "reuse" }, if via_ext { "encap_ext" } else { "encap" }), rank, || (format!("end fragment trailer {} is not the big-endian CRC-32/MPEG-2 {:#010x} of total|pt|label as written|PDU", hex(tr), want_crc), wit()));
+                        rep.violation(&format!("C12|wiring|trailer|{}|{}", if matches!(lk, Lk::Plain(_) | Lk::PlainAfterCountedReuse(_)) { "plain" } else { "reuse" }, if via_ext { "encap_ext" } else { "encap" }), rank, || (format!("end fragment trailer {} is not the big-endian CRC-32/MPEG-2 {:#010x} of total|pt|label as written|PDU", hex(tr), want_crc), wit()));
                     }
                     let rc = rec_rx.take();
                     acc.compared += 1;
                     // the receiver must recompute over the same four arguments (at least once)
                     if !rc.iter().any(|c| c.pdu == pd && c.pt == pt && c.total == want_total && c.label == on_wire) {
                         let seen: Vec<String> = rc.iter().map(|c| format!("(pdu {} bytes, pt {:#06x}, total_len {}, label {})", c.pdu.len(), c.pt, c.total, hex(&c.label))).collect();
-                        rep.violation(&format!("C12|wiring|receiver-args|{}", if matches!(lk, Lk::Plain(_)) { "plain" } else { "reuse" }), rank, || (format!("decap never recomputed the CRC over (PDU {} bytes, pt {:#06x}, total_len {}, label as written {}); calls seen: {:?}; outcome {}", p, pt, want_total, hex(&on_wire), seen, d.brief()), wit()));
+                        rep.violation(&format!("C12|wiring|receiver-args|{}", if matches!(lk, Lk::Plain(_) | Lk::PlainAfterCountedReuse(_)) { "plain" } else { "reuse" }), rank, || (format!("decap never recomputed the CRC over (PDU {} bytes, pt {:#06x}, total_len {}, label as written {}); calls seen: {:?}; outcome {}", p, pt, want_total, hex(&on_wire), seen, d.brief()), wit()));
                     }
                     match &d {
                         DecapOut::Completed { meta, .. } if meta.label == intended => acc.outcome("B:delivered"),
@@ -322,7 +335,7 @@ fn part_b(rep: &Report, tier: Tier) {
         rep.merge(acc);
     });
     let _ = refm::header_fields;
-    rep.part(json!({"part":"B wiring","pdu_lengths":format!("0..={}",maxp),"label_kinds":6,"first_buffers":"7..=p+15","next_buffers":[7,8,9,13,64,70000],"via":"encap, encap_ext (one optional extension), encap_ext (optional + final mandatory extension, protocol type = its id)"}));
+    rep.part(json!({"part":"B wiring","pdu_lengths":format!("0..={}",maxp),"label_kinds":8,"first_buffers":"7..=p+15","next_buffers":[7,8,9,13,64,70000],"via":"encap, encap_ext (one optional extension), encap_ext (optional + final mandatory extension, protocol type = its id)"}));
 }
 
 /// C: hand-built trains on the receiver side, conformant and with an inconsistent total length:
